@@ -1853,4 +1853,119 @@ class C19(Oracle):
         return out
 
 
-ORACLES = {'C18': C18, 'C08': C08, 'C09': C09, 'C10': C10, 'C11': C11, 'C12': C12, 'C05': C05, 'C06': C06, 'C07': C07, 'C04': C04, 'C20': C20, 'C15': C15, 'C16': C16, 'C13': C13, 'C01': C01, 'C19': C19}
+
+class C17(Oracle):
+    prop = 'C17'
+
+    def gen(self, rng):
+        import glob
+        import os
+
+        files = shipped_files() + sorted(glob.glob(os.path.join(gvenv.REPO, 'gym_gridverse', 'registered_envs', '*.yaml'))) + [os.path.join(gvenv.REPO, 'examples', 'coin_env.yaml')]
+        k = 0
+        while True:
+            f = files[k % len(files)]
+            k += 1
+            yield {'kind': 'build', 'file': f, 'seed': rng.randrange(2**31), 'actions': [rng.randrange(8) for _ in range(rng.randint(5, 60))]}
+            yield {'kind': 'corrupt', 'file': rng.choice(files[:21]), 'which': rng.choice(['unknown-name', 'missing-required', 'bad-shape', 'bad-color', 'bad-action', 'bad-layout']), 'pick': rng.randrange(10**6)}
+            yield {'kind': 'byname', 'seed': rng.randrange(2**31)}
+
+    def check(self, c):
+        import copy
+        import os
+        from schema import SchemaError
+        from harness import envspec
+        from gym_gridverse.envs.yaml.factory import factory_env_from_data, factory_env_from_yaml
+
+        out = []
+        if c['kind'] == 'build':
+            data = load_cfg(c['file'])
+            before = copy.deepcopy(data)
+            try:
+                e1 = factory_env_from_data(data)
+                if data != before:
+                    out.append(V('factory/mutates-input-data', os.path.basename(c['file'])))
+                e2 = factory_env_from_data(data)
+                e3 = factory_env_from_yaml(c['file'])
+                eh = envspec.hand_assemble(before)
+            except Exception as e:
+                return [V('factory/shipped-config-rejected', f'{os.path.basename(c["file"])}: {type(e).__name__}: {e}')]
+            envs = [e1, e2, e3, eh]
+            names = ['from_data', 'from_data(again)', 'from_yaml', 'hand-assembled']
+            spaces = [(e.state_space.grid_shape, [t.__name__ for t in e.state_space.object_types], sorted(x.value for x in e.state_space.colors), e.observation_space.grid_shape, [a.name for a in e.action_space.actions]) for e in envs]
+            if any(sp != spaces[0] for sp in spaces):
+                out.append(V('factory/spaces-differ-from-description', f'{os.path.basename(c["file"])}: {spaces}'))
+            for e in envs:
+                e.set_seed(c['seed'])
+                e.reset()
+            nact = len(e1.action_space.actions)
+            for k, ai in enumerate(c['actions']):
+                a = e1.action_space.actions[ai % nact]
+                st = [enc_state(e.state) if not os.path.basename(c['file']).startswith('coin') else repr(e.state.grid.objects) + repr(e.state.agent) for e in envs]
+                ob = [enc_state(e.observation) if not os.path.basename(c['file']).startswith('coin') else repr(e.observation.grid.objects) for e in envs]
+                if any(x != st[0] for x in st) or any(x != ob[0] for x in ob):
+                    bad = [names[i] for i in range(4) if st[i] != st[0] or ob[i] != ob[0]]
+                    out.append(V('factory/behaviour-differs-from-hand-assembly', f'{os.path.basename(c["file"])} step {k}: {bad}'))
+                    break
+                res = [e.step(a) for e in envs]
+                if any(r != res[0] for r in res):
+                    out.append(V('factory/reward-or-termination-differs', f'{os.path.basename(c["file"])} step {k}: {res}'))
+                    break
+                if res[0][1]:
+                    for e in envs:
+                        e.reset()
+            return out
+        if c['kind'] == 'corrupt':
+            data = load_cfg(c['file'])
+            rr = random.Random(c['pick'])
+            w = c['which']
+            fn_keys = ['reset_function', 'observation_function', 'terminating_function']
+            if w == 'unknown-name':
+                tgt = rr.choice(fn_keys + ['transition_functions', 'reward_functions'])
+                node = data[tgt] if tgt in fn_keys else rr.choice(data[tgt])
+                node['name'] = 'no_such_component'
+            elif w == 'missing-required':
+                node = data['reset_function']
+                req = [k for k in node if k not in ('name', 'random_agent', 'random_exit')]
+                if not req:
+                    return out
+                node.pop(rr.choice(req))
+            elif w == 'bad-shape':
+                data['reset_function']['shape'] = rr.choice([[5], [5, 5, 5], [0, 5], [-3, 4], ['a', 5], [5.5, 5], 5, []])
+            elif w == 'bad-layout':
+                if 'layout' not in data['reset_function']:
+                    return out
+                data['reset_function']['layout'] = rr.choice([[2], [0, 2], [2, -1], ['a', 2], [2, 2, 2], 2])
+            elif w == 'bad-color':
+                tgt = rr.choice(['state_space', 'observation_space'])
+                data[tgt]['colors'] = rr.choice([['PURPLE'], [], ['RED', 'RED'], 'RED', [3]])
+            elif w == 'bad-action':
+                data['action_space'] = rr.choice([['JUMP'], [], ['MOVE_LEFT', 'MOVE_LEFT'], 'MOVE_LEFT', [1]])
+            try:
+                factory_env_from_data(data)
+                out.append(V(f'factory/{w}-accepted', f'{os.path.basename(c["file"])}: {data.get("reset_function")}'))
+            except (SchemaError, ValueError):
+                pass
+            except Exception as e:
+                out.append(V(f'factory/{w}-wrong-error', f'{os.path.basename(c["file"])}: {type(e).__name__}: {e}'))
+            return out
+        # component by name behaves like the function called with the parameters
+        from harness import corr_core
+        from gym_gridverse.envs import reward_functions as rf, terminating_functions as tf
+        from gym_gridverse.grid_object import Exit, Key
+
+        rr = random.Random(c['seed'])
+        s, a, s2 = corr_core._reward_triples(rr, rr.randrange(4))
+        if not in_grid(s2.grid, s2.agent.position):
+            return out
+        for name, kw, extra in [('reach_exit', {'reward_on': 3.0, 'reward_off': -1.0}, {'colour': 'blue'}), ('living_reward', {'reward': -0.25}, {'shape': (3, 3)}), ('bump_into_wall', {'reward': -2.0}, {}), ('pickndrop', {'object_type': Key, 'reward_pick': 1.5}, {'reward_drip': 9.0})]:
+            f = rf.factory(name, **kw, **extra)
+            if f(s, a, s2) != rf.reward_function_registry[name](s, a, s2, **kw):
+                out.append(V('factory/component-by-name-differs', name))
+        for name in ('reach_exit', 'bump_into_wall', 'bump_moving_obstacle'):
+            if tf.factory(name, junk=1)(s, a, s2) != tf.terminating_function_registry[name](s, a, s2):
+                out.append(V('factory/component-by-name-differs', name))
+        return out
+
+
+ORACLES = {'C18': C18, 'C08': C08, 'C09': C09, 'C10': C10, 'C11': C11, 'C12': C12, 'C05': C05, 'C06': C06, 'C07': C07, 'C04': C04, 'C20': C20, 'C15': C15, 'C16': C16, 'C13': C13, 'C01': C01, 'C19': C19, 'C17': C17}
